@@ -36,4 +36,20 @@ Example C09_nonvacuous :
   /\ c09_ok 1 (map to_op ops) tr = true.
 Proof. vm_compute. repeat split; reflexivity. Qed.
 
+
+(* ------------------------------------------------------------------------------------------ *)
+(* Server half (model: Server.v; proofs: Server*.v; statements restated from ServerProps.v).
+   From here on unqualified names are the SERVER model's. *)
+From TarpcV Require Import TimerWheel Server ServerMon ServerFuel ServerProps ServerWitness.
+
+(* Server channel: dropping the channel sets the abort flag of every tracked request, and an
+   execute() whose flag is set never polls its handler again (Properties/C04.v,
+   C04_aborted_never_progresses).  (The full monitor - a failing transport call ends the poll,
+   which reports that activity; no transport call after it; nothing polled after the channel was
+   dropped; no panic - is ServerSpec.stmt_s09; it runs on the real traces on every run.) *)
+Theorem C09_server_drop_aborts : forall (T : Type) (s : @sstate T) e,
+  s_dropped s = false -> In e (s_inflight s) -> In (e_h e) (s_aborted (drop_channel s)).
+Proof. exact ServerProps.C09_server_drop_aborts. Qed.
+
 Print Assumptions C09_client_monitor.
+Print Assumptions C09_server_drop_aborts.
